@@ -34,6 +34,11 @@ IdxColsExp(cs) == [i \in DOMAIN cs |-> [n |-> cs[i].n, o |-> IF "o" \in DOMAIN c
 IndexElem(x) == [kind |-> IF "primary" \in DOMAIN x /\ x.primary THEN "primary" ELSE IF "unique" \in DOMAIN x /\ x.unique THEN "unique" ELSE "index",
                  name |-> IF "name" \in DOMAIN x THEN x.name ELSE "", cols |-> IdxColsExp(x.cols)]
 StripRest(p) == [kind |-> p.kind, name |-> p.name, cols |-> p.cols]
+\* MySQL writes the index type of a table-level key (USING BTREE / HASH after the name; FULLTEXT as a prefix)
+IndexTypeOk(B, x, p) ==
+  LET ty == IF "index_type" \in DOMAIN x THEN x.index_type ELSE "" IN
+  p.kind = "primary" \/ B # "mysql" \/
+  (p.using = (CASE ty = "BTree" -> "BTREE" [] ty = "Hash" -> "HASH" [] OTHER -> "") /\ p.fulltext = (ty = "FullText"))
 
 CreateTableReasons(B, d, p) ==
   IF p.kind # "create_table" THEN {"not_a_create_table"}
@@ -45,7 +50,7 @@ CreateTableReasons(B, d, p) ==
           \cup (IF p.if_not_exists = ("if_not_exists" \in DOMAIN d /\ d.if_not_exists) THEN {} ELSE {"if_not_exists_differs"})
           \cup (IF Len(p.elems) # nc + ni + nf + nk THEN {"element_count_differs"}
                 ELSE UNION {ColumnReasons(B, d.cols[i], p.elems[i]) : i \in 1..nc}
-                     \cup (IF \A i \in 1..ni : p.elems[nc + i].kind \in {"primary", "unique", "index"} /\ StripRest(p.elems[nc + i]) = IndexElem(ix[i]) THEN {} ELSE {"table_indexes_differ"})
+                     \cup (IF \A i \in 1..ni : p.elems[nc + i].kind \in {"primary", "unique", "index"} /\ StripRest(p.elems[nc + i]) = IndexElem(ix[i]) /\ IndexTypeOk(B, ix[i], p.elems[nc + i]) THEN {} ELSE {"table_indexes_differ"})
                      \cup (IF \A i \in 1..nf : p.elems[nc + ni + i] = FkElem(fk[i]) THEN {} ELSE {"foreign_keys_differ"})
                      \cup (IF \A i \in 1..nk : p.elems[nc + ni + nf + i] = [kind |-> "check", e |-> Canon(B, ck[i])] THEN {} ELSE {"checks_differ"}))
 
@@ -63,6 +68,7 @@ ExpActions(B, d) ==
                         [] o.col.specs[j].k = "Default" -> <<[k |-> "set_default", name |-> o.col.name, e |-> CanonVal(o.col.specs[j].v)]>>
                         [] o.col.specs[j].k = "Unique" -> <<[k |-> "add_constraint", c |-> [kind |-> "unique", name |-> "", cols |-> <<[n |-> o.col.name, o |-> ""]>>]]>>
                         [] o.col.specs[j].k = "PrimaryKey" -> <<[k |-> "add_constraint", c |-> [kind |-> "primary", name |-> "", cols |-> <<[n |-> o.col.name, o |-> ""]>>]]>>
+                        [] o.col.specs[j].k = "Check" -> <<[k |-> "add_constraint", c |-> [kind |-> "check", e |-> Canon(B, o.col.specs[j].e)]]>>
                         [] OTHER -> <<>>])
       [] o.k = "rename_column" -> <<[k |-> "rename_column", from |-> o.from, to |-> o.to]>>
       [] o.k = "drop_column" -> <<[k |-> "drop_column", name |-> o.name]>>
@@ -102,14 +108,25 @@ DdlReasons(B, d, sql) ==
                 \cup (IF p.include = (IF "include" \in DOMAIN d THEN d.include ELSE <<>>) THEN {} ELSE {"index_include_columns_differ"})
                 \cup (IF p.nnd = ("nulls_not_distinct" \in DOMAIN d /\ d.nulls_not_distinct) THEN {} ELSE {"index_nulls_not_distinct_differs"})
                 \cup (IF p.where = (IF "where" \in DOMAIN d THEN Canon(B, d.where) ELSE [k |-> "none"]) THEN {} ELSE {"index_predicate_differs"})
-      [] d.stmt = "index_drop" -> IF p.kind = "drop_index" /\ p.name = d.name /\ (B = "pg" \/ p.table = <<d.table>>) THEN {} ELSE {"drop_index_differs"}
+      [] d.stmt = "index_drop" -> IF p.kind = "drop_index" /\ p.name = d.name /\ (B = "pg" \/ p.table = <<d.table>>)
+                                     /\ (B # "pg" \/ p.qual = (IF "schema" \in DOMAIN d THEN <<d.schema, d.name>> ELSE <<d.name>>))
+                                     /\ p.if_exists = ("if_exists" \in DOMAIN d /\ d.if_exists) THEN {} ELSE {"drop_index_differs"}
       [] d.stmt = "fk_create" -> IF p.kind = "alter_table" /\ p.name = <<d.from_table>> /\ Len(p.actions) = 1 /\ p.actions[1] = [k |-> "add_constraint", c |-> FkElem(d)] THEN {} ELSE {"foreign_key_differs"}
       [] d.stmt = "fk_drop" -> IF p.kind = "alter_table" /\ p.name = <<d.table>> /\ p.actions = <<[k |-> "drop_fk", name |-> d.name]>> THEN {} ELSE {"drop_foreign_key_differs"}
       [] d.stmt = "type_create" -> IF p.kind = "create_type" /\ p.name = <<d.name>> /\ p.labels = d.values THEN {} ELSE {"create_type_differs"}
       [] d.stmt = "type_drop" -> IF p.kind = "drop_type" /\ p.names = <<<<d.name>>>> /\ p.if_exists = ("if_exists" \in DOMAIN d /\ d.if_exists) THEN {} ELSE {"drop_type_differs"}
+      [] d.stmt = "extension_create" ->
+           IF p.kind = "create_extension" /\ p.name = d.name /\ p.if_not_exists = ("if_not_exists" \in DOMAIN d /\ d.if_not_exists)
+              /\ p.schema = (IF "schema" \in DOMAIN d THEN d.schema ELSE "") /\ p.version = (IF "version" \in DOMAIN d THEN d.version ELSE "")
+              /\ p.cascade = ("cascade" \in DOMAIN d /\ d.cascade) THEN {} ELSE {"create_extension_differs"}
+      [] d.stmt = "extension_drop" ->
+           IF p.kind = "drop_extension" /\ p.name = d.name /\ p.if_exists = ("if_exists" \in DOMAIN d /\ d.if_exists)
+              /\ p.opt = (IF "cascade" \in DOMAIN d /\ d.cascade THEN "CASCADE" ELSE IF "restrict" \in DOMAIN d /\ d.restrict THEN "RESTRICT" ELSE "") THEN {} ELSE {"drop_extension_differs"}
       [] d.stmt = "type_alter" ->
            IF p.kind # "alter_type" \/ p.name # <<d.name>> \/ p.op # d.op THEN {"alter_type_differs"}
-           ELSE IF d.op = "add_value" THEN (IF p.value = d.value /\ p.ref = (IF "before" \in DOMAIN d THEN d.before ELSE IF "after" \in DOMAIN d THEN d.after ELSE "") THEN {} ELSE {"alter_type_differs"})
+           ELSE IF d.op = "add_value" THEN (IF p.value = d.value /\ p.ref = (IF "before" \in DOMAIN d THEN d.before ELSE IF "after" \in DOMAIN d THEN d.after ELSE "")
+                                                 /\ p.place = (IF "before" \in DOMAIN d THEN "BEFORE" ELSE IF "after" \in DOMAIN d THEN "AFTER" ELSE "")
+                                                 /\ p.ine = ("if_not_exists" \in DOMAIN d /\ d.if_not_exists) THEN {} ELSE {"alter_type_differs"})
            ELSE IF d.op = "rename_to" THEN (IF p.value = d.value THEN {} ELSE {"alter_type_differs"})
            ELSE (IF p.value = d.value /\ p.ref = d.to THEN {} ELSE {"alter_type_differs"})
 =============================================================================
